@@ -152,7 +152,12 @@ impl<'a> TryFrom<Token<'a>> for bool {
         match value {
             Token::DecimalNumericProgramData(_) => {
                 // Round numeric to integer, non-zero equals true
-                Ok(<isize>::try_from(value)? != 0)
+                match <isize>::try_from(value) {
+                    Ok(v) => Ok(v != 0),
+                    // Too large for an integer is still not zero
+                    Err(err) if err == ErrorCode::DataOutOfRange => Ok(true),
+                    Err(err) => Err(err),
+                }
             }
             Token::CharacterProgramData(s) => {
                 if s.eq_ignore_ascii_case(b"ON") {
